@@ -8,6 +8,45 @@ VERIF = os.path.dirname(os.path.dirname(os.path.abspath(__file__)))
 KNOWN = os.path.join(VERIF, "known_findings.json")
 
 
+import re as _re
+_OPAQUE = _re.compile(r"\?[A-Za-z_]|undef\(|loop\(|(?<![\{\[])@[A-Za-z_]|<lambda|<closure|"
+                      r"unsupported:")
+OPAQUE_KINDS = {"unknown": "unresolved value", "undef": "name not bound on this path",
+                "loopout": "loop-carried variable not summarised",
+                "loopcarried": "loop-carried variable not summarised",
+                "unsupported": "statement kind not modelled"}
+
+
+def opaque_reason(text, terms=()):
+    """why a derived description is not fully modelled (None if it is)"""
+    m = _OPAQUE.search(text or "")
+    if m:
+        i = m.start()
+        return f"`{(text or '')[max(0, i - 30):i + 40]}`"
+    seen = set()
+
+    def walk(t, depth=0):
+        if not isinstance(t, tuple) or not t or id(t) in seen or depth > 60:
+            return None
+        seen.add(id(t))
+        if isinstance(t[0], str):
+            if t[0] in OPAQUE_KINDS:
+                return f"{OPAQUE_KINDS[t[0]]}: {str(t)[:80]}"
+            if t[0] == "call" and isinstance(t[1], str) and t[1].startswith("?"):
+                return f"unresolved call {t[1]}"
+        for x in t:
+            if isinstance(x, tuple):
+                r = walk(x, depth + 1)
+                if r:
+                    return r
+        return None
+    for t in terms:
+        r = walk(t)
+        if r:
+            return r
+    return None
+
+
 class Checker:
     def __init__(self, pid, tier="quick", seed=0, quiet=False):
         self.pid = pid
@@ -26,8 +65,21 @@ class Checker:
         self.floor_misses = []
 
     # ------------------------------------------------------------------ record
-    def ob(self, rule, construct, ok, detail="", loc="", nontrivial=True, undecided=False):
-        """one obligation: rule id, normalised construct (no line numbers), verdict"""
+    def ob(self, rule, construct, ok, detail="", loc="", nontrivial=True, undecided=False,
+           terms=()):
+        """one obligation: rule id, normalised construct (no line numbers), verdict.
+
+        A failed obligation is a *violation* only when what the analysis derived is fully
+        modelled: if the derived description (detail text, or the terms handed in) contains parts
+        the engine could only treat as unknown - an unresolved call, an unsummarised loop variable,
+        an undefined name, an unmodelled statement - the honest verdict is *undecided*: the code may
+        well be right, written in an idiom outside the modelled fragment."""
+        if not ok and not undecided:
+            why = opaque_reason(detail, terms)
+            if why:
+                undecided = True
+                detail = (f"NOT DECIDED - the analysis met a construct it does not model ({why}); "
+                          f"derived: {detail}")
         st = "ok" if ok else ("undecided" if undecided else "violation")
         self.obligations.append({"rule": rule, "construct": construct, "status": st,
                                  "detail": detail, "loc": loc, "nontrivial": nontrivial})
@@ -62,9 +114,16 @@ class Checker:
     # ------------------------------------------------------------------ finish
     def finish(self, replay=None, write=True):
         if self.floor_misses and not any(o["status"] == "violation" for o in self.obligations):
-            # a rule that matched (almost) nothing and reported nothing: never a silent pass
-            from .model import AnalysisError
-            raise AnalysisError("; ".join(self.floor_misses))
+            # a rule that matched fewer sites than confirmed by hand and reported nothing: never a
+            # silent pass.  With nothing analysed at all the run is broken (exit 2); otherwise the
+            # shortfall is stated as an undecided obligation (the code was restructured beyond what
+            # the rule recognises - or the analysis is blind there)
+            if not any(o["status"] == "ok" and o["nontrivial"] for o in self.obligations):
+                from .model import AnalysisError
+                raise AnalysisError("; ".join(self.floor_misses))
+            for m in self.floor_misses:
+                self.ob("engine.vacuity", m, False, "fewer instances than on the tree the rule "
+                        "was confirmed on", "", undecided=True)
         known = load_known()
         kf = [k for k in known.get("findings", []) if k.get("property") == self.pid]
         viol, kn = [], []
